@@ -13,7 +13,7 @@ from harness.common import enc
 from harness import c06
 
 PROP = 'C13'
-GENERATORS = ['gen_command', 'gen_cmdstack']
+GENERATORS = ['gen_command', 'gen_cmdstack', 'gen_groups']   # gen_groups: C06.Model (imported by the C13 model) uses Gen_groups
 TRUSTED = [
     'hand model coq/C13/Model.v of CommandStack.do/undo/redo, AddData, RemoveData, ApplySubsetState/ApplyROI (do and undo) and '
     'EditSubsetMode._combine_data over the C06 model of the data collection (tied by correspondence on the explored sequences)',
